@@ -143,6 +143,7 @@ def counter_facts(f):
     out = {}
     for c in counter_locals(f):
         inits = set()
+        init_blocks = set()
         for bid, b in f.blocks.items():
             if b['cleanup']:
                 continue
@@ -151,7 +152,15 @@ def counter_facts(f):
                     rv = st['rv']
                     if 'use' in rv and 'const' in rv['use']:
                         inits.add(int(rv['use']['const']['scalar'], 16))
+                        init_blocks.add(bid)
         if len(inits) != 1:
+            continue
+        # the counter describes ONE candidate key: where the candidate is taken inside a retry loop, the counter must be initialised
+        # inside that loop too (otherwise the agreement of earlier, rejected candidates is carried over)
+        cand = [bid for bid, t in f.calls() if f.callee(t) == HEAP + '::pop']
+        stale = [h for h, body in f.loops().items() if any(b_ in body for b_ in cand) and not any(b_ in body for b_ in init_blocks)]
+        if stale:
+            out[c] = (list(inits)[0], 'bad:the counter is initialised once, outside the loop that takes a new candidate key - counts of rejected candidates accumulate')
             continue
         kinds = set()
         for p in explore(f, max_visits=1, havoc=True, limit=3000):
